@@ -297,6 +297,10 @@ class CallMixin:
                 if after is not None and name == "__init__": return NONE      # object.__init__
                 raise Unsupported(f"no method {recv.cls}.{name} @ {self.where(n)}")
             fn, owner = found
+            if "staticmethod" in self.w.decorators(fn):
+                return self.call_fn(fn, args, kwargs, st, owner=owner, qual=f"{owner}.{name}")
+            if "classmethod" in self.w.decorators(fn):
+                return self.call_fn(fn, [VClass(recv.cls)] + args, kwargs, st, owner=owner, qual=f"{owner}.{name}")
             return self.call_fn(fn, [recv] + args, kwargs, st, owner=owner, qual=f"{owner}.{name}")
         if isinstance(recv, VPoint):
             h = self.contracts.get(("Point", name))
@@ -306,6 +310,8 @@ class CallMixin:
                 if name == "_replace":
                     return VPoint(*[as_opt(kwargs.get(a, getattr(recv, a))) for a in "xyz"])
                 raise Unsupported(f"Point.{name}")
+            if "staticmethod" in self.w.decorators(found[0]):
+                return self.call_fn(found[0], args, kwargs, st, owner="Point", qual=f"Point.{name}")
             return self.call_fn(found[0], [recv] + args, kwargs, st, owner="Point", qual=f"Point.{name}")
         if isinstance(recv, VEnum):
             h = self.contracts.get((recv.cls, name))
